@@ -180,6 +180,10 @@ def fmt_diffs(ds, n=4):
 
 
 def short(x):
+    if isinstance(x, F) and (x.numerator.bit_length() > 200 or x.denominator.bit_length() > 200):
+        return f"~{float(x):.15g} (exact fraction of {x.numerator.bit_length()}/{x.denominator.bit_length()} bits)"
+    if isinstance(x, F):
+        return str(x)
     s = repr(x) if not isinstance(x, float) else f"{x:.12g}"
     return s if len(s) < 80 else s[:77] + "..."
 
